@@ -80,6 +80,11 @@ Definition side_ok (sc : scen) (st : store) : bool :=
      end
    else true).
 
+(** the side objects that sit on the pod itself: the received-type annotation and, for a shared-GPU
+    request, the GPU-group labels of all its groups *)
+Definition pod_side_ok (sc : scen) (p : pod) : bool :=
+  opt_rtype_eqb (p_recv p) (Some (recv_type sc)) && (if sc_fraction sc then labels_ok sc p else true).
+
 (** leftovers of an attempt that no later sync removes: GPU-group labels on the
     consumer and config maps that were not there before.  (Reservation pods
     without a labelled Pending/Running consumer are deleted by the next
@@ -106,6 +111,35 @@ Definition reported (fin : store) (crashed returned_err : bool) : bool :=
   | None => true
   end || crashed || returned_err.
 
+(** ... or the binder did nothing at all: the Get of the request was the only call
+    of the reconcile (it was answered NotFound: "BindRequest not found, probably
+    deleted" - the request stays as it is for the next event) *)
+Definition nothing_done (log : list (cobs * outcome)) : bool :=
+  match log with [(CGetBR, _)] => true | _ => false end.
+
+(** the request is (still / now) Succeeded *)
+Definition br_succeeded (st : store) : bool :=
+  match br st with Some b => brphase_eqb (b_phase b) BSucceeded | None => false end.
+
+(** ** Concurrent actors *)
+Definition estep_eqb (a b : estep) : bool :=
+  match a, b with
+  | EvBindElsewhere, EvBindElsewhere | EvTerminate, EvTerminate | EvRemove, EvRemove
+  | EvRecreate, EvRecreate | EvDeleteBR, EvDeleteBR => true
+  | EvDeleteRsv x, EvDeleteRsv y => x =? y
+  | _, _ => false
+  end.
+(** nobody else touches the store during the reconcile *)
+Definition env_quiet (env : nat -> list estep) : Prop := forall k, env k = [].
+(** nobody binds the pod before the reconciler has read it (calls 0 and 1 are the
+    Gets of the request and of the pod): the reconciler reads it as unbound - the
+    other case is the "pod already bound" no-op of [C11_noop_bound] *)
+Definition read_unbound (env : nat -> list estep) : Prop :=
+  forall k, k <= 1 -> ~ In EvBindElsewhere (env k).
+(** the consumer the request was written for is still the one in the store *)
+Definition same_pod (init fin : store) : Prop :=
+  self_alive fin = true /\ p_uid (self fin) = p_uid (self init).
+
 (** nothing between "Rollback begins" and "Rollback ends" was hit by an injected fault *)
 Definition cleanup_unfaulted (s : state) : bool :=
   match s_mark s, s_mark_end s with
@@ -119,7 +153,7 @@ Definition pod_same_binding (a b : pod) : bool :=
   (p_name a =? p_name b) && Bool.eqb (p_rsv a) (p_rsv b) && (p_node a =? p_node b) &&
   pphase_eqb (p_phase a) (p_phase b) && opt_nat_eqb (p_plain a) (p_plain b) &&
   list_nat_eqb (p_multi a) (p_multi b) && opt_nat_eqb (p_idx a) (p_idx b) &&
-  opt_rtype_eqb (p_recv a) (p_recv b).
+  opt_rtype_eqb (p_recv a) (p_recv b) && (p_uid a =? p_uid b) && Bool.eqb (p_term a) (p_term b).
 Definition pod_eqb (a b : pod) : bool := pod_same_binding a b && opt_bool_eqb (p_cond a) (p_cond b).
 
 Fixpoint list_eqb {A} (e : A -> A -> bool) (a b : list A) : bool :=
@@ -133,7 +167,7 @@ Definition data_eqb (a b : cdata) : bool :=
   opt_cval_eqb (d_vis a) (d_vis b) && opt_cval_eqb (d_visbc a) (d_visbc b).
 Definition cm_eqb (a b : option cm) : bool :=
   match a, b with
-  | Some x, Some y => Bool.eqb (cm_owned x) (cm_owned y) && data_eqb (cm_data x) (cm_data y)
+  | Some x, Some y => (cm_owner x =? cm_owner y) && data_eqb (cm_data x) (cm_data y)
   | None, None => true
   | _, _ => false
   end.
@@ -166,10 +200,11 @@ Definition is_bind_elsewhere (e : cobs * outcome) : bool :=
 
 (** ** Hypotheses of the theorems (Prop level) *)
 
-(** the consumer as the binder finds it: an existing, unbound, Pending pod with a
+(** the consumer as the binder finds it: an existing, unbound, Pending pod that is not being deleted, with a
     request that has not Succeeded; no other pod shares its name *)
 Definition init_ok (st : store) : Prop :=
   self_alive st = true /\ p_name (self st) = 0 /\ p_rsv (self st) = false /\ p_phase (self st) = PhPending
+  /\ p_term (self st) = false
   /\ p_node (self st) = 0 /\ Forall (fun p => p_name p <> 0) (others st)
   /\ exists b, br st = Some b /\ b_phase b <> BSucceeded.
 
